@@ -179,7 +179,8 @@ def flatten_decls(top):
 
     def mk_spec(mode, v, lead, f):
         if isinstance(v, dict) and "ref" in v:    # (element of) an array parameter
-            return {"form": "pref", "p": v["ref"], "el": v.get("el")}
+            return {"form": "pref", "p": v["ref"], "el": v.get("el"), "op": v.get("op", "ref"), "k": v.get("k", 1),
+                    "p2": v.get("ref2"), "dims": v.get("dims")}
         if isinstance(v, dict):     # parameter expression
             if mode == "each" or not isinstance(v["k"], list):
                 return {"form": "pscalar", "k": v["k"], "p": v["p"]}
@@ -192,10 +193,33 @@ def flatten_decls(top):
 
 def pexpr_text(v):
     if "ref" in v:
-        return v["ref"] if v.get("el") is None else "%s[%d]" % (v["ref"], v["el"] + 1)
+        if v.get("el") is not None:
+            return "%s[%d]" % (v["ref"], v["el"] + 1)
+        op = v.get("op", "ref")
+        if op == "smul":
+            return "%d*%s" % (v["k"], v["ref"])
+        if op == "add":
+            return "%s + %s" % (v["ref"], v["ref2"])
+        if op == "emul":
+            return "%s .* %s" % (v["ref"], v["ref2"])
+        return v["ref"]
     if isinstance(v["k"], list):
         return "%s*%s" % (v["p"], lit(v["k"]))
     return "%s*%s" % (lit(v["k"]), v["p"])
+
+
+def array_param_expr(rng, same):
+    """non-scalar expression of array parameters of one shape: p | k*p | p + p2 | p .* p2"""
+    pp = rng.choice(same)
+    r = rng.random()
+    v = {"ref": pp.name, "el": None, "dims": list(pp.dims)}
+    if r < 0.35:
+        v.update(op="smul", k=rng.choice([-3, -2, 2, 3]))
+    elif r < 0.55:
+        v.update(op="add", ref2=rng.choice(same).name)
+    elif r < 0.7:
+        v.update(op="emul", ref2=rng.choice(same).name)
+    return v
 
 
 # ------------------------------------------------------------------------------------------
@@ -254,14 +278,18 @@ def gen_program(rng, stream="main"):
         r = rng.random()
         shapes.append([rng.randint(2, 4)] if r < 0.55 else [rng.randint(2, 3), rng.randint(2, 3)])
     for dims in shapes:
-        for j in range(rng.randint(1, 3)):
+        lead_param = rng.random() < 0.45
+        for j in range(rng.randint(2, 3) if lead_param else rng.randint(1, 3)):
             r = rng.random()
             kind = "alg" if r < 0.6 else "param" if r < 0.75 else "input" if r < 0.9 else "const"
+            if lead_param and j == 0:
+                kind = "param"
             typ = "Real"
             f = Field("x%d" % next(nid), list(dims), kind, typ, output=(kind == "alg" and rng.random() < 0.3))
             if kind in ("param", "const"):
                 r2 = rng.random()
-                f.value = ("lit", nested(rng, dims, 1, 6)) if r2 < 0.6 or kind == "const" else ("fill", rng.randint(1, 5)) if r2 < 0.8 else None
+                f.value = ("lit", nested(rng, dims, 1, 6)) if r2 < 0.6 or kind == "const" or (lead_param and j == 0) \
+                    else ("fill", rng.randint(1, 5)) if r2 < 0.8 else None
             for a in rng.sample(NUM_ATTRS, rng.choice([0, 1, 1, 2])):
                 r3 = rng.random()
                 if r3 < 0.35:
@@ -277,15 +305,19 @@ def gen_program(rng, stream="main"):
                     feats.add("attr-param-vector")
             if kind in ("alg", "input") and rng.random() < 0.3:
                 # attribute that refers to an array parameter declared earlier (needs _substitute_metadata)
-                ps = [x for k2, x in top.order if k2 == "f" and x.kind == "param" and x.typ == "Real"
-                      and len(x.dims) == 1 and x.value is not None]
+                allp = [x for k2, x in top.order if k2 == "f" and x.kind == "param" and x.typ == "Real"
+                        and len(x.dims) in (1, 2) and x.value is not None]
+                ps = [x for x in allp if len(x.dims) == 1]
                 free = [a for a in NUM_ATTRS if a not in f.cls_attrs]
-                if ps and free:
-                    same = [x for x in ps if x.dims == list(dims)]
-                    pp = rng.choice(same) if same and rng.random() < 0.7 else rng.choice(ps)
-                    if pp.dims == list(dims) and rng.random() < 0.8:
-                        f.cls_attrs[rng.choice(free)] = ("plain", {"ref": pp.name, "el": None})
-                        feats.add("attr-param-array")
+                same = [x for x in allp if x.dims == list(dims)]
+                if same and free and rng.random() < 0.8:
+                    # a non-scalar MX attribute: element (i, j) of the expression (`value[ind]`)
+                    f.cls_attrs[rng.choice(free)] = ("plain", array_param_expr(rng, same))
+                    feats.add("attr-param-array-%dd" % len(dims))
+                elif ps and free:
+                    pp = rng.choice(ps)
+                    if False:
+                        pass
                     else:
                         f.cls_attrs[rng.choice(free)] = ("each", {"ref": pp.name, "el": rng.randrange(pp.dims[0])})
                         feats.add("attr-param-element")
@@ -326,6 +358,12 @@ def gen_program(rng, stream="main"):
                 for f in c.fields:
                     tot = dims + f.dims
                     if len(tot) > 2:
+                        continue
+                    samep = [x for k2, x in top.order if k2 == "f" and x.kind == "param" and x.typ == "Real"
+                             and x.value is not None and x.dims == tot and len(tot) == 2]
+                    if samep and f.kind == "alg" and rng.random() < 0.5:
+                        mods[f.name] = {rng.choice(NUM_ATTRS): ("plain", array_param_expr(rng, samep))}
+                        feats.add("attr-param-array-nested")
                         continue
                     if rng.random() < 0.35 and tot:
                         a = rng.choice(NUM_ATTRS)
